@@ -13,11 +13,15 @@ package main
 //                     bl.LastKnownHeight = end.Height, so CommitBlock creates no undo data for the blocks more than
 //                     UnwindBufLen = 2560 below the target, and CommitBlockTxs removes undo/<h-2560>.
 //
-// Capturing the directory at every one of the ≈ 13 000 vhook hits of such a history would cost minutes, so the hits are
-// SAMPLED (hits that are not captured carry NoCopy): nothing before the block that triggers the flush; inside the flush the
-// first hits, every stride-th hit and everything from the last blocks of the flush on; every hit after it.
+// Capturing the directory at every one of the ≈ 13 000 (deep-recovery: ≈ 40 000) vhook hits of such a history would cost minutes
+// (it did: the final Idle of deep-recovery alone was ≈ 2 200 captures of a directory with 2 700 undo files, each re-opened twice
+// by processes that replay 2 600 blocks - 28 minutes), so the hits are SAMPLED (hits that are not captured carry NoCopy): see
+// bulkSelector. In library mode only every fourth capture of a deep-recovery run is re-opened.
 
-import "fmt"
+import (
+	"fmt"
+	"strings"
+)
 
 const maxBlocksToWrite = 1024 // chain.MAX_BLOCKS_TO_WRITE (untyped constant of package chain; checked in bulkCounters)
 
@@ -44,20 +48,33 @@ func bulkWorkloads(thorough bool) (ws []Workload) {
 	w.BulkEvery = every
 	ws = append(ws, w)
 	if thorough {
-		ws = append(ws, bulkWorkload("deep-recovery", 2600, 2, 211))
+		ws = append(ws, bulkWorkload("deep-recovery", 2600, 2, 397))
 	}
 	return
 }
 
 // bulkSelector decides (with s.mu held) whether the directory is captured at the current hit.
+//
+// threshold-flush: nothing before the block that triggers the flush; inside the flush the first hits, every stride-th hit and
+// everything from the last block of the flush on; the next block completely; afterwards every BulkEvery-th hit.
+// deep-recovery (BulkN > MAX_BLOCKS_TO_WRITE; every captured directory holds thousands of undo files and every fresh process
+// replays thousands of blocks, so the captures are FEW): the same inside the first flush; every stride-th hit while the rest is
+// queued and flushed (the second threshold flush, the final Idle); but EVERY hit while the last deepTail blocks are written
+// (only there more than UnwindBufLen = 2560 blocks are on disk above the snapshot, i.e. the recovery loop runs without undo
+// data and removes undo files) and every hit that is not a block-store write during the final Idle / Close (snapshot points).
+const deepTail = 10
+
 func bulkSelector(s *Sched, w Workload) func(name string) bool {
 	first := -1 // index of the op that queues the BulkN-th block (or the first block after the flush threshold)
 	trigger := w.BulkN
 	if trigger > maxBlocksToWrite {
 		trigger = maxBlocksToWrite
 	}
-	seen := 0
+	seen, total := 0, 0
 	for i, op := range w.Ops {
+		if op.K == "blk" {
+			total++
+		}
 		if op.K == "blk" && len(op.Name) > 1 && op.Name[0] == 'Q' {
 			seen++
 			if seen == trigger {
@@ -65,15 +82,21 @@ func bulkSelector(s *Sched, w Workload) func(name string) bool {
 			}
 		}
 	}
+	deep := w.BulkN > maxBlocksToWrite
 	inOp, written, after := 0, 0, 0
 	return func(name string) bool {
 		if s.opIdx < first {
 			return false
 		}
 		if s.opIdx > first {
-			if w.BulkN > maxBlocksToWrite && s.opIdx < len(w.Ops)-4 {
-				// deep-recovery: the blocks between the first flush and the end are queued again; sample them
+			if deep {
 				inOp++
+				if s.cnt["blockdb.write:before-dat"] > total-deepTail {
+					return true // the last blocks go to disk (cnt is incremented before this is called: the block being written counts)
+				}
+				if s.opIdx >= len(w.Ops)-2 && !strings.HasPrefix(name, "blockdb.write:") {
+					return true // final Idle / Close: the snapshot's points
+				}
 				return inOp%w.BulkStride == 0
 			}
 			// after the flush: the next block completely, then (quick) every eighth hit
